@@ -97,6 +97,8 @@ class RestartRun:
         self.build = build
         self.unsavable = 0
         self.crash_states = []
+        self.load_error = None
+        self.task = None
 
     def _medium(self):
         medium = self.media[self.restores % len(self.media)]
@@ -164,7 +166,14 @@ class RestartRun:
                 bundle, self.pending_bundle = self.pending_bundle, None
                 loop.hooks = None
                 loop = seams.new_loop(max_ticks=20000)
-                proc = load(bundle, loop, self._loader())
+                try:
+                    proc = load(bundle, loop, self._loader())
+                except SimError:
+                    raise
+                except Exception as exc:  # noqa: BLE001 - a checkpoint that was written cannot be loaded: a verdict, not a harness error
+                    self.load_error = exc
+                    self.world.rec('load_failed', type(exc).__name__)
+                    break
                 self.restores += 1
                 self._attach(proc)
                 self.world.rec('restored', proc.state.value)
@@ -173,7 +182,7 @@ class RestartRun:
                     self._maybe_crash(proc)
                 except SimCrash:
                     continue
-            task = loop.create_task(proc.step_until_terminated())
+            task = self.task = loop.create_task(proc.step_until_terminated())
             with loop.running():
                 while True:
                     while loop.step_once():
@@ -190,7 +199,6 @@ class RestartRun:
             if self.pending_bundle is None:
                 break
         self.proc = proc
-        self.task = task
         self.loop = loop
         self.sim_time += loop.time()
         self.ticks += loop.tick
@@ -200,7 +208,7 @@ class RestartRun:
         trace = getattr(proc, '_trace', None)
         if trace is None:
             return False
-        proc.resume(['rv', len(trace)])
+        programs.apply_trace_resume(proc)
         return True
 
     def close(self):
